@@ -179,6 +179,45 @@ def own_events(ctx):
                 p._contents = bytearray(b'z' * n2)
                 p.update_hlen()
                 ev.append(own_event('literal parsed (%s/%s) then grown to %d octets' % (fmt, form, n2), bytes(p.__bytearray__()), TAILS[(n2 + 1) % len(TAILS)]))
+        # signatures with text in their subpackets (policy URI, notation name / value, regular expression, revocation comment): the
+        # parsed object presents the text that was given, and a subpacket ADDED to the parsed object leaves the others as they are
+        from pgpy.constants import RevocationReason
+        from datetime import timedelta
+        ks = K.new_key('ed25519', name='Text Subpackets', email='ts@x.org')
+        ko = K.new_key('ed25519', name='Other', email='o@x.org')
+        texts = ['https://x.org/\xfc\u2713', 'v\xe4lue \u2713 \U0001f511', 'gr\xfcnde \u2014 gone']
+
+        def text_fields(pk):
+            out = []
+            for nm, attr in (('Policy', 'uri'), ('NotationData', 'value'), ('ReasonForRevocation', 'string'), ('PreferredKeyServer', 'uri')):
+                for sp_ in pk.subpackets[nm] if nm in pk.subpackets else []:
+                    v_ = getattr(sp_, attr)
+                    out.append([nm, [ord(c_) for c_ in v_] if isinstance(v_, str) else list(v_)])
+            return out
+        for label, mk, given in (('document signature with policy and notation', lambda: ks.sign('doc', policy_uri=texts[0], notation={'n@x.org': texts[1]}, created=K.ts(K.T0 + 9)),
+                                  [['Policy', texts[0]], ['NotationData', texts[1]]]),
+                                 ('identity revocation with a comment', lambda: ks.revoke(ks.userids[0], reason=RevocationReason.UserID, comment=texts[2], created=K.ts(K.T0 + 9)),
+                                  [['ReasonForRevocation', texts[2]]]),
+                                 ('certification with a key server', lambda: ks.certify(ks.userids[0], keyserver=texts[0], created=K.ts(K.T0 + 9)), [['PreferredKeyServer', texts[0]]])):
+            try:
+                raw = bytes(mk()._signature.__bytearray__())
+            except Exception as ex:
+                ctx.note('%s not made: %s' % (label, repr(ex)[:80]))
+                continue
+            want = [[nm, [ord(c_) for c_ in tx]] for nm, tx in given]
+            p = Packet(bytearray(raw))
+            ev.append({'k': 'text', 'label': label + ' / as parsed', 'given': want, 'got': text_fields(p)})
+            for hashed_ in (False, True):
+                p = Packet(bytearray(raw))
+                try:
+                    p.subpackets.addnew('Features', hashed=hashed_, flags=set())
+                    p.update_hlen()
+                    raw2 = bytes(p.__bytearray__())
+                    ev.append(own_event('%s parsed, a subpacket added to the %s area' % (label, 'hashed' if hashed_ else 'unhashed'), raw2, TAILS[1]))
+                    ev.append({'k': 'text', 'label': '%s / re-parsed after a subpacket was added to the %s area' % (label, 'hashed' if hashed_ else 'unhashed'), 'given': want,
+                               'got': text_fields(Packet(bytearray(raw2)))})
+                except Exception as ex:
+                    ev.append({'k': 'text', 'label': '%s / adding a subpacket raised %s' % (label, repr(ex)[:60]), 'given': want, 'got': []})
         saved = keylife.fast_s2k()
         try:
             for alg in ('ed25519', 'rsa2048', 'p256'):
@@ -415,7 +454,7 @@ def run(ctx):
             if w in name and ('dsa' in name or 'elgamal' in name):
                 name = 'DSA/ElGamal secret key with S2K usage 255'
         ctx.violation(clause, '%s: %s' % (e['k'], name if e['k'] == 'foreign' else name.split(' #')[0]), {'label': e['label'], 'exc': e.get('exc'),
-                                                                                                         'packet': (e.get('f') or e.get('emitted'))[:64]})
+                                                                                                         'packet': (e.get('f') or e.get('emitted') or [])[:64], 'given': e.get('given'), 'got': e.get('got')})
     return ctx.finish(level='model_checking',
                       rule='own: every packet (also nested in compressed packets) of ~120 objects built through the API x trailing data, plus parsed packets mutated '
                            'in place across every length boundary; foreign: 50 fixture packets + ~45 builder-made packets x every legal header encoding x trailing data',
